@@ -32,6 +32,7 @@ func main() {
 	logsmt := flag.String("logsmt", "", "directory for SMT logs")
 	list := flag.Bool("list", false, "list harnesses")
 	cpuprof := flag.String("cpuprofile", "", "write a CPU profile here")
+	passReplays := flag.Int("passreplays", 0, "export this many passing paths per harness with a model of their inputs")
 	flag.Parse()
 	if *cpuprof != "" {
 		f, err := os.Create(*cpuprof)
@@ -70,6 +71,7 @@ func main() {
 	o.Unwind = *unwind
 	o.MaxPaths = *maxpaths
 	o.MaxInstrs = *maxinstr
+	o.PassReplays = *passReplays
 	o.Solver = *solver
 	o.TimeoutMs = *timeout
 	o.Trace = *trace
